@@ -26,7 +26,7 @@ META = {
             "(p + shifted copy: equal exponents merge, distinct ones stay distinct), multiplication by q0, derivative, "
             "evaluation at 1 (and at 2 for e<=60), str; all pairs (a,b) with a+b<=600 for (c*q0**a)*(d*q0**b) (one packed call "
             "per a); two- and three-indeterminate exponent tuples on a boundary grid through multiply, power, derivative, call, "
-            "pickle; savetxt/loadtxt ('correct or error') for every single exponent < 300 in three positions and every exponent pair (a,b) < 110; exponents beyond 55000 up to 2**31: correct or error. "
+            "pickle; savetxt/loadtxt ('correct or error', StringIO and files written/read with latin1 / utf-8 / default encodings and binary streams) for every single exponent < 300 in three positions and every exponent pair (a,b) < 110; exponents beyond 55000 up to 2**31: correct or error. "
             "distinct = exponent value or tuple x operation.",
     "bounds": lambda tier: {"single_exponents": LIMIT, "coverage_of_single_exponents": "all" if tier == "thorough" else "core + 1/8 slice",
                             "pair_sum": 600, "grid": GRID, "beyond": BIG},
@@ -161,6 +161,21 @@ def run_single(case, R, es=None):
                      ("pickle", lambda: pickle.loads(pickle.dumps(p))),
                      ("getitem", lambda: p[::1]), ("copy", lambda: p.copy())):
         expect(R, fname, lab, f, eq_model(m), tags, sub)
+    # the functions that rebuild a polynomial from the raw structured array (reshape, transpose, repeat, ...)
+    n = len(es)
+    for fname, f, h in (("reshape", lambda: numpoly.reshape(p, (n, 1)), lambda c: c.reshape(n, 1)),
+                        ("transpose", lambda: numpoly.transpose(numpoly.reshape(p, (1, n))), lambda c: c.reshape(n, 1)),
+                        ("repeat", lambda: numpoly.repeat(p, 2, axis=0), lambda c: numpy.repeat(c, 2)),
+                        ("tile", lambda: numpoly.tile(p, 2), lambda c: numpy.tile(c, 2)),
+                        ("expand_dims", lambda: numpoly.expand_dims(p, 0), lambda c: c[None]),
+                        ("atleast_2d", lambda: numpoly.atleast_2d(p), lambda c: c[None]),
+                        ("array_split", lambda: numpoly.array_split(p, 2)[1], lambda c: numpy.array_split(c, 2)[1]),
+                        ("diag", lambda: numpoly.diag(p), lambda c: numpy.diag(c)),
+                        ("broadcast_arrays", lambda: numpoly.broadcast_arrays(p, numpoly.reshape(p, (n, 1)))[0], lambda c: numpy.broadcast_to(c, (n, n))),
+                        ("concatenate", lambda: numpoly.concatenate([p, p]), lambda c: numpy.concatenate([c, c])),
+                        ("where", lambda: numpoly.where(numpy.arange(n) % 2 == 0, p, 0), lambda c: numpy.where(numpy.arange(n) % 2 == 0, c, 0)),
+                        ("polynomial(list)", lambda: numpoly.polynomial(list(p[:3])), lambda c: c[:3])):
+        expect(R, fname, lab, f, eq_model(m.map(h)), tags, sub)
     # alignment: equal exponents merge, distinct stay distinct
     shifted = [e + 1 for e in es]
     p2, coef2 = build_block(shifted, [10 * c for c in coef])
@@ -273,7 +288,8 @@ def run_text(case, R):
         for tp in ([(e, 0), (0, 1)], [(e, e), (1, 0)], [(0, e), (e, 1)]):
             p = build_tuples(names, tp, [2, 3])
             m = tuples_model(names, tp, [2, 3])
-            text_roundtrip(R, p, m, f"exponents {tp}", ["text"])
+            text_roundtrip(R, p, m, f"exponents {tp}", ["text"],
+                           encodings=(None, ("latin1", "latin1"), ("utf-8", "utf-8"), ("latin1", "rb"), ("utf-8", None), (None, "latin1")) if tp[0][1] == 0 else (None,))
         R.state(("text", e))
 
 
@@ -289,14 +305,30 @@ def run_textpairs(case, R):
         R.state(("textpair", a))
 
 
-def text_roundtrip(R, p, m, lab, tags, spellings=("numpoly", "numpy")):
-    for spelling in spellings:
+def text_roundtrip(R, p, m, lab, tags, spellings=("numpoly", "numpy"), encodings=(None,)):
+    import os
+    import tempfile
+    for spelling, enc in [(s_, e_) for s_ in spellings for e_ in encodings]:
         R.tr()
-        f = io.StringIO()
         try:
-            (numpoly.savetxt if spelling == "numpoly" else numpy.savetxt)(f, p)
-            f.seek(0)
-            q = numpoly.loadtxt(f)
+            save = numpoly.savetxt if spelling == "numpoly" else numpy.savetxt
+            if enc is None:
+                f = io.StringIO()
+                save(f, p)
+                f.seek(0)
+                q = numpoly.loadtxt(f)
+            else:
+                fd, path = tempfile.mkstemp(prefix="numpoly-verif-c20-", dir=os.environ.get("TMPDIR", "/var/tmp"))
+                os.close(fd)
+                try:
+                    save(path, p, encoding=enc[0])
+                    if enc[1] == "rb":
+                        with open(path, "rb") as src:
+                            q = numpoly.loadtxt(src)
+                    else:
+                        q = numpoly.loadtxt(path, encoding=enc[1])
+                finally:
+                    os.unlink(path)
         except Exception:  # noqa: BLE001
             R.stat("text_raised")
             continue
